@@ -9,7 +9,7 @@ from vf.model.rnd import urandoms
 
 PID = "C06"
 LEVEL = "exploration"
-BUDGET = {"quick": 8000, "thorough": 400000}
+BUDGET = {"quick": 12000, "thorough": 400000}
 HEADS = ["alpha", "beta", "gamma", "delta", "interface", "eps", "notify", "undone"]   # (the last two merely start like "no" / "undo")
 RULE = ("Hypothesis draws two ACL texts A, B over the ACL language (nesting<=3, *, trailing ~, literal words, '~ %global' catch-alls, literal "
         "%global leaf rules, %cant_delete=0/1) and a tree over the same words with covered and uncovered rows interleaved at every depth; "
